@@ -423,6 +423,14 @@ func genInstant(rt *rapid.T, z *zoneInfo) instant {
 	if k >= 2 && k <= 6 && len(z.trans) == 0 {
 		k = 0
 	}
+	if k == 11 && len(z.trans) != 0 {
+		// The far future is only drawn for zones without transitions. Beyond its tables (2037) the time
+		// package evaluates the zone's rule string on every look-up and, on 31 December of leap years, reports
+		// a period end that is already past, which both kit (after the fix) and the reference can only cross
+		// second by second (tens of milliseconds per search). The five-year bound does not depend on the zone;
+		// zones with rules are covered there by TestFiveYearBound and the pinned cases.
+		k = 0
+	}
 	switch {
 	case k < 2:
 		class = "uniform"
@@ -489,7 +497,7 @@ func genPresentation(rt *rapid.T, z *zoneInfo) *time.Location {
 // ---------------------------------------------------------------- termination guard
 
 // A Next that never returns must become a failure with the case in the log,
-// not a killed process. Every call of kit's Next made by the random searches
+// not a killed process. Every call of kit's Parse and Next made by the searches
 // is announced here; a watchdog goroutine fails the process if one call runs
 // for longer than nextDeadline, which is several orders of magnitude above the
 // slowest legitimate call (micro- to milliseconds).
@@ -505,21 +513,40 @@ var (
 	watchdogOnce sync.Once
 )
 
-func guardedNext(s cron.Schedule, t time.Time, desc func() string) time.Time {
+func guarded(desc func() string, call func()) {
 	watchdogOnce.Do(func() {
 		go func() {
 			for {
 				time.Sleep(500 * time.Millisecond)
 				if c := current.Load(); c != nil && time.Since(c.start) > nextDeadline {
-					panic(fmt.Sprintf("C04 termination violated: Next did not return within %v\ncase: %s", nextDeadline, c.desc()))
+					panic(fmt.Sprintf("C04 termination violated: the call did not return within %v\ncase: %s", nextDeadline, c.desc()))
 				}
 			}
 		}()
 	})
 	current.Store(&inflight{start: time.Now(), desc: desc})
-	r := s.Next(t)
-	current.Store(nil)
+	defer current.Store(nil)
+	call()
+}
+
+func guardedNext(s cron.Schedule, t time.Time, desc func() string) (r time.Time) {
+	guarded(desc, func() { r = s.Next(t) })
 	return r
+}
+
+// safeParse runs kit's Parse under the termination guard and turns a panic
+// into a value (a panic is a failure of the refusal property, reported with
+// the whole case).
+func safeParse(o optSet, text string) (s cron.Schedule, err error, panicked any) {
+	guarded(func() string { return fmt.Sprintf("Parse {parser=%s expr=%q}", o.name, text) }, func() {
+		defer func() {
+			if r := recover(); r != nil {
+				panicked = r
+			}
+		}()
+		s, err = o.parse(text)
+	})
+	return
 }
 
 // nextWithDeadline runs one call in a child goroutine (pinned regression inputs).
